@@ -27,7 +27,7 @@ def Refines (s : SubActor) (a : Abs) : Prop :=
 theorem absWF_init : AbsWF Abs.init := by
   intro x hx; simp [Abs.init] at hx
 
-theorem refines_init : Refines SubActor.init Abs.init := by
+theorem refines_init (self : Nat) : Refines (SubActor.init self) Abs.init := by
   refine ⟨rfl, ?_⟩
   intro t; simp [SubActor.lookup, SubActor.init, Abs.on, Abs.init]
 
@@ -147,9 +147,12 @@ theorem refines_step {s : SubActor} {a : Abs} (hr : Refines s a) (hw : AbsWF a) 
     exact ⟨hc, hl⟩
   | statusChanged ad c =>
     simp only [SubActor.step, hm, onStatusChanged]
-    by_cases hcl : c = true
-    · simp only [hcl, if_true]; exact ⟨hc, fun t => by simpa [SubActor.lookup, Abs.apply] using hl t⟩
-    · simp only [hcl]; exact ⟨hc, fun t => by simpa [SubActor.lookup, Abs.apply] using hl t⟩
+    by_cases hself : ad = s.self
+    · simp only [hself, if_true]; exact ⟨hc, fun t => by simpa [SubActor.lookup, Abs.apply] using hl t⟩
+    · simp only [hself, if_false]
+      by_cases hcl : c = true
+      · simp only [hcl, if_true]; exact ⟨hc, fun t => by simpa [SubActor.lookup, Abs.apply] using hl t⟩
+      · simp only [hcl]; exact ⟨hc, fun t => by simpa [SubActor.lookup, Abs.apply] using hl t⟩
   | other =>
     simp only [SubActor.step, hm]
     exact ⟨hc, hl⟩
@@ -170,9 +173,9 @@ theorem absWF_after (h : List Envelope) : AbsWF (Abs.after h) := by
   | nil => exact absWF_init
   | snoc h e ih => rw [after_append]; exact absWF_apply ih _
 
-theorem refines_run (h : List Envelope) : Refines (SubActor.run SubActor.init h).1 (Abs.after h) := by
+theorem refines_run (self : Nat) (h : List Envelope) : Refines (SubActor.run (SubActor.init self) h).1 (Abs.after h) := by
   induction h using snoc_induction with
-  | nil => exact refines_init
+  | nil => exact refines_init self
   | snoc h e ih =>
     rw [after_append, run_append]
     simp only [SubActor.run]
